@@ -98,8 +98,12 @@ func (c *RuntimeContext) Ptr() uintptr {
 	return uintptr(header.Data)
 }
 
+// TakeRuntimeContext hands out a pooled context with the options of a first call: the flags, colour
+// scheme, debug writers and context.Context of whoever used it before are not those of the next call.
 func TakeRuntimeContext() *RuntimeContext {
-	return runtimeContextPool.Get().(*RuntimeContext)
+	ctx := runtimeContextPool.Get().(*RuntimeContext)
+	*ctx.Option = Option{}
+	return ctx
 }
 
 func ReleaseRuntimeContext(ctx *RuntimeContext) {
